@@ -95,6 +95,13 @@ impl Locator {
                             continue;
                         }
                         in_text_run = true;
+                    } else if let XmlNode::EntityReference(_) = &k {
+                        // `>` after `]]` is printed as `&gt;`: a reference belongs to the run of character data around it
+                        if in_text_run {
+                            self.by_id.entry(k.id()).or_insert(format!("{}/{}", path, j - 1));
+                            continue;
+                        }
+                        in_text_run = true;
                     } else {
                         in_text_run = false;
                     }
